@@ -39,6 +39,7 @@ type Router struct {
 	statePath   string
 	services    *ServiceMap
 	serviceLock sync.RWMutex
+	stateLock   sync.Mutex
 }
 
 type ServiceDescription struct {
@@ -322,6 +323,11 @@ func (r *Router) findOrCreateService(name string, options ServiceOptions, target
 }
 
 func (r *Router) saveStateSnapshot() error {
+	// Take and write snapshots one at a time, so that a snapshot can never be
+	// overwritten by one that was taken before it.
+	r.stateLock.Lock()
+	defer r.stateLock.Unlock()
+
 	services := []*Service{}
 	r.withReadLock(func() error {
 		for _, service := range r.services.All() {
@@ -330,12 +336,29 @@ func (r *Router) saveStateSnapshot() error {
 		return nil
 	})
 
-	f, err := os.Create(r.statePath)
+	// Write the snapshot to a temporary file and rename it into place, so that
+	// the state file is a complete snapshot at every instant, even if the
+	// process is killed while saving.
+	tmpPath := r.statePath + ".tmp"
+	f, err := os.Create(tmpPath)
 	if err != nil {
 		return err
 	}
 
 	err = json.NewEncoder(f).Encode(services)
+	if err != nil {
+		slog.Error("Unable to save state", "error", err, "path", r.statePath)
+		f.Close()
+		return err
+	}
+
+	err = f.Close()
+	if err != nil {
+		slog.Error("Unable to save state", "error", err, "path", r.statePath)
+		return err
+	}
+
+	err = os.Rename(tmpPath, r.statePath)
 	if err != nil {
 		slog.Error("Unable to save state", "error", err, "path", r.statePath)
 		return err
